@@ -130,10 +130,16 @@ int vp_harness_main(void) {
     ASSUME(s.f4 == RADIX_CLASS);
 #if ISIGNED
     int64_t sv = (int64_t)(raw << (64 - IBITS)) >> (64 - IBITS);
+#ifdef VMIN
+    ASSUME(sv >= VMIN && sv <= VMAX);       /* decimal at 32/64 bits is decided on windows of values (DESIGN.md C12) */
+#endif
     neg = sv < 0; mag = neg ? (uint64_t)0 - (uint64_t)sv : (uint64_t)sv;
     CAT_CALL(ITYPE)(&s, sv);
 #else
     mag = IBITS == 64 ? raw : (raw & (((uint64_t)1 << (IBITS % 64)) - 1));
+#ifdef VMAX
+    ASSUME(mag >= VMINU && mag <= VMAX);
+#endif
     CAT_CALL(ITYPE)(&s, mag);
 #endif
     uint32_t radix = RADIX_CLASS == DG_HEX || RADIX_CLASS == DG_HEXU ? 16 : RADIX_CLASS == DG_OCT ? 8 : RADIX_CLASS == DG_BIN ? 2 : 10;
@@ -142,8 +148,10 @@ int vp_harness_main(void) {
     ASSUME(m == 0);   /* T digits suffice by construction of the query */
     for (uint64_t i = 0; i < T; i++) if (i < nd) dg[i] = rev[nd - 1 - i];
     el = ref_numeric(&s, dg, nd, mag == 0 ? 2 : neg ? 1 : 0, exp);
-#if ISIGNED
+#if ISIGNED && !defined(VMIN)
     if (neg && mag == ((uint64_t)1 << (IBITS - 1))) REACH("most negative value");
+#elif ISIGNED
+    if (sv == VMIN) REACH("smallest value of the window");
 #endif
   }
 #elif OP == 6
